@@ -1,6 +1,8 @@
 import LcmModel.Solve
 import LcmModel.Sim
 import LcmModel.Diag
+import LcmModel.Spec
+import LcmModel.Keys
 import LcmModel.ArgmaxND
 import LcmModel.Kwargs
 import LcmModel.GridsPy
@@ -198,6 +200,80 @@ def handle (j : Json) : Except String Json := do
     let isdc ← j.getObjValAs? Bool "dataclass"
     let vals ← (← (← j.getObjVal? "vals").getArr?).toList.mapM parsePyVal
     return Json.mkObj [("ok", toJson (validateDiscrete isdc vals))]
+  | "sim_spec" =>
+    let m ← parseModel (← j.getObjVal? "model")
+    let P ← parseParams (← j.getObjVal? "params")
+    let shift := (j.getObjValAs? Bool "shift").toOption.getD true
+    let t ← j.getObjValAs? Nat "t"
+    let g := groups m
+    let next : Option (Tensor Ext × List (List (Lcm.Name × Rat))) ← match j.getObjVal? "Vnext" with
+      | .ok (Json.null) => pure none
+      | .ok vj => do
+        let V ← parseExtTensor vj
+        pure (some (V, (mkSpace m P g (if shift then t + 1 else t)).feas))
+      | .error _ => pure none
+    let agents ← (← j.getObjVal? "agents").getArr?
+    let outs ← agents.toList.mapM fun aj => do
+      let st ← parseAssoc (← aj.getObjVal? "states")
+      let ch ← parseAssoc (← aj.getObjVal? "choices")
+      let a := specAgent m P g t next st ch
+      pure (Json.mkObj [
+        ("best", Json.str (showExt a.best)), ("n_optimal", toJson a.nOptimal), ("n_admissible", toJson a.nAdmissible),
+        ("undefined", toJson a.undefined),
+        ("q", match a.qReported with | some (q, _) => Json.str (showRat q) | none => Json.null),
+        ("adm", match a.qReported with | some (_, f) => toJson f | none => Json.null),
+        ("on_grid", toJson a.onGrid), ("next_det", assocJson a.nextDet),
+        ("rows", Json.mkObj (a.rows.map fun (x, r) => (x, toJson (r.map showRat))))])
+    return Json.mkObj [("ok", Json.arr outs.toArray)]
+  | "spec_v" =>
+    let m ← parseModel (← j.getObjVal? "model")
+    let P ← parseParams (← j.getObjVal? "params")
+    let shift := (j.getObjValAs? Bool "shift").toOption.getD true
+    let t ← j.getObjValAs? Nat "t"
+    let g := groups m
+    let next : Option (Tensor Ext × List (List (Lcm.Name × Rat))) ← match j.getObjVal? "Vnext" with
+      | .ok (Json.null) => pure none
+      | .ok vj => do
+        let V ← parseExtTensor vj
+        pure (some (V, (mkSpace m P g (if shift then t + 1 else t)).feas))
+      | .error _ => pure none
+    let sts ← (← (← j.getObjVal? "states").getArr?).toList.mapM parseAssoc
+    return Json.mkObj [("ok", toJson (sts.map fun st => showExt (specV m P g t next st)))]
+  | "key_paths" =>
+    let nv ← j.getObjValAs? Nat "n_vars"
+    let na ← j.getObjValAs? Nat "n_agents"
+    let T ← j.getObjValAs? Nat "n_periods"
+    let out := (List.range T).map fun t => (List.range nv).map fun v => (List.range na).map fun i => agentKey nv na t v i
+    return Json.mkObj [("ok", toJson out)]
+  | "layout" =>
+    let m ← parseModel (← j.getObjVal? "model")
+    let P : Params := { beta := 0, funcs := [], shocks := [] }
+    let g := groups m
+    let out := (List.range m.nPeriods).map fun t =>
+      let sp := mkSpace m P g t
+      Json.mkObj [
+        ("sparse_states", toJson (g.sS.map (·.1))), ("sparse_choices", toJson (g.sC.map (·.1))),
+        ("dense_states", toJson (g.dS.map (·.1))), ("dense_choices", toJson (g.dC.map (·.1))),
+        ("cont_states", toJson (g.cS.map (·.1))), ("cont_choices", toJson (g.cC.map (·.1))),
+        ("feas", toJson (sp.feas.map fun a => a.map fun p => showRat p.2)),
+        ("rows", toJson (sp.rows.map fun r => (r.1 ++ r.2).map fun p => showRat p.2)),
+        ("seg_ids", toJson sp.segIds),
+        ("shape", toJson ((if g.sS.isEmpty then [] else [sp.feas.length]) ++ sizes g.dS ++ sizes (cStateGrids g)))]
+    return Json.mkObj [("ok", Json.arr out.toArray)]
+  | "eval_funcs" =>
+    let m ← parseModel (← j.getObjVal? "model")
+    let P ← parseParams (← j.getObjVal? "params")
+    let names ← j.getObjValAs? (Array String) "names"
+    let rows ← (← j.getObjVal? "rows").getArr?
+    let outs ← rows.toList.mapM fun rj => do
+      let env ← parseAssoc (← rj.getObjVal? "env")
+      let t ← rj.getObjValAs? Nat "t"
+      pure (Json.arr (names.toList.map fun n =>
+        match callF m P m.fuel (toEnv env ++ periodEnv t) n with
+        | some (.num q) => Json.str (showRat q)
+        | some (.bool b) => Json.str (if b then "1" else "0")
+        | none => Json.null).toArray)
+    return Json.mkObj [("ok", Json.arr outs.toArray)]
   | "variable_info" =>
     let m ← parseModel (← j.getObjVal? "model")
     return Json.mkObj [("ok", toJson ((variableInfo m).map (·.name)))]
